@@ -104,6 +104,51 @@ def classify(ctx, body, role, e, st_idx, pr_idx, fields):
     return None, False, short(d, 100)
 
 
+def _step(t):
+    """(kind, detail) of one access step, or None for wrappers that do not select"""
+    if t.tag == 'elem':
+        return ('elem',)
+    if t.tag == 'elemat':
+        return ('at', canon(t[2]))
+    if t.tag == 'adapt':
+        return ('adapt', t[1].replace('_mut', ''), tuple(canon(a) for a in t.args[2:]))
+    if t.tag == 'via':
+        return ('via', t[1])
+    return None
+
+
+def access_path(t):
+    """selection steps from the root collection out to t (fields and mutation wrappers ignored)"""
+    steps = []
+    t = strip(t)
+    while t.tag in ('elem', 'elemat', 'adapt', 'via', 'mut', 'field'):
+        st = _step(t)
+        if st is not None:
+            steps.append(st)
+        t = strip(t[2]) if t.tag in ('adapt', 'via', 'field') else strip(t[1])
+    return list(reversed(steps))
+
+
+def paths_to(t, root, limit=4):
+    """access paths (root outward) of the maximal selection chains in t that end at `root`"""
+    out = []
+    for x in walk(t):
+        if x.tag in ('elem', 'elemat', 'field', 'via'):
+            y = strip(x)
+            chain = []
+            while y.tag in ('elem', 'elemat', 'adapt', 'via', 'mut', 'field'):
+                st = _step(y)
+                if st is not None:
+                    chain.append(st)
+                y = strip(y[2]) if y.tag in ('adapt', 'via', 'field') else strip(y[1])
+            if y is root and chain:
+                p = list(reversed(chain))
+                if p not in out:
+                    out.append(p)
+    # keep only maximal chains
+    return [p for p in out if not any(q != p and q[:len(p)] == p for q in out)][:limit]
+
+
 def run(ctx):
     rep = ctx.rep
     for role in ('prover', 'verifier'):
@@ -188,6 +233,28 @@ def run(ctx):
         one = len(roots) == 1 and next(iter(roots)).tag == 'param'
         rep.check(one, 'R-C04-3', 'R-C04-3/%s/receiver' % role, 'all %d per-proof transcript events act on the caller-supplied transcript parameter %s' % (
             len(mine), short(next(iter(roots)), 40) if roots else None), 'transcript events act on several objects: %s' % [short(r, 60) for r in roots], ctx.where(body))
+        # positional alignment: the transcript an event acts on is reached from the caller's slice the same way as the member
+        # (statement / proof) whose data it absorbs -- member i is bound to transcript i
+        naligned, bad_al = 0, []
+        for e in mine:
+            d = e.data()
+            if d is None:
+                continue
+            rs = access_path(e.receiver())
+            for x in walk(d):
+                if x.tag == 'param' and x[1] == body.key and body.local_ty(x[2]).startswith('&[') and 'Transcript' not in body.local_ty(x[2]):
+                    for ds in paths_to(d, x):
+                        pre = ds[:len(rs)]
+                        if any(k[0] == 'at' for k in pre):
+                            continue            # data of a designated member (the first statement's generators): same for every proof
+                        naligned += 1
+                        if pre != rs:
+                            bad_al.append((e, rs, pre))
+        if role == 'verifier':
+            rep.floor('R-C04-3', 'member-data absorptions compared for alignment', naligned, 8)
+        rep.check(not bad_al, 'R-C04-3', 'R-C04-3/%s/aligned' % role, 'every absorption acts on the transcript at the position of the member it absorbs (%d compared)' % naligned,
+                  'transcript and member are reached differently: %s' % [((e.label() or b'?').decode('latin1'), r, p) for e, r, p in bad_al[:2]],
+                  ctx.where(bad_al[0][0].body, bad_al[0][0].bb) if bad_al else ctx.where(body))
         news = [e for e in other if e.kind in ('transcript_new', 'transcript_clone')]
         allowed = [e for e in news if e.kind == 'transcript_new' and role == 'verifier' and not any(wire.root_of(x.receiver()) is e.result for x in mine)]
         # the challenges must be drawn from the caller's transcript, never from a fresh one
